@@ -257,6 +257,23 @@ def implementation(args):
     return out
 
 
+def first_term_key_of(unit):
+    """str() writes the unit's prefix on its first factor: name that (prefix symbol, factor symbol) pair - the text that
+    actually collides, whatever named unit the expression happens to be"""
+    try:
+        f, e = next(iter(unit.factors.items()))
+        p = unit.prefix * f.prefix
+        try:
+            p = p.root(e)
+        except Exception:
+            return "prefix-not-divisible-by-first-exponent"
+        if p.base != 0 and p.exponent != 0 and not p.symbol:
+            return "unregistered-prefix-after-pushdown"
+        return "%s+%s" % (p.symbol or "", f.symbol)
+    except Exception:
+        return "?"
+
+
 STAGES = [["si"], ["us", "avoirdupois", "troy", "energy"], ["systems"]]
 
 
@@ -291,7 +308,7 @@ def incremental(args):
                     continue
                 v, r = same_scale(m, parsed, unit)
                 if v != "equal-unit":
-                    out["viol"].append(["%s:%s+%s" % (v, p.symbol if p else "", u.symbol),
+                    out["viol"].append(["%s:%s" % (v, first_term_key_of(unit)),
                                         "after importing stage %d (%s): str(%s%s) = %r parses to %s" % (si, "+".join(stage), (p.name + "*") if p else "", u.name, text, parsed)])
     return out
 
